@@ -381,6 +381,8 @@ class KaniBuild:
         pmod.append("}")
         if nsyn:
             an.append(prs, "\n".join(pmod) + "\n")
+        # (loader string forms `db "..."` / `dw "..."`: a bounded Kani harness was tried -- CBMC's SMT2 back end aborts on the
+        #  str slice and the SAT encoding of `.bytes()` over the 1 MB memory needs > 60 GB -- so they stay outside the contracts)
         for u in self.units.values():
             u.driver = "kani" if (u.kind == "contract" or u.name.lstrip("kf_") in self._sv or u.name in self._sv) else "own"
         for f in self.findings:
